@@ -597,7 +597,14 @@ def c04(ctx):
 
 
 def coo_runs(ctx):
-    pass
+    q = ctx.quick()
+    gcfg = "CONSTANTS MaxLen = %d MaxBatch = %d\nINIT Init\nNEXT Next\nCHECK_DEADLOCK FALSE\n" % ((1, 2) if q else (2, 2))
+    cases, n = vlib.tlc_generate(ctx, "Gen_Coo", gcfg, "cases-coo.ndjson")
+    keys = ["texts", "lengths", "groups", "coo", "mask"]
+    vlib.exec_and_judge(ctx, "coo", cases, "Trace_Coo", "A-coo", sample_keys=keys)
+    rnd = ctx.path("cases-coo-b.ndjson")
+    vlib.harness(["gen", "coo", ctx.seed, 1500 if q else 20000, rnd])
+    vlib.exec_and_judge(ctx, "coo", rnd, "Trace_Coo", "B-coo", sample_keys=keys)
 
 
 # ---------------------------------------------------------------------------
